@@ -1,0 +1,71 @@
+//! Verification hooks. Compiled only with `--cfg saito_verif`; never part of a normal build.
+//!
+//! * a thread-local seeded byte source that replaces `thread_rng()` in `generate_random_bytes`
+//! * a thread-local step budget: `step(site)` unwinds with `StepBudgetExceeded` once the budget
+//!   set by the harness is used up, so that a livelock becomes a deterministic verdict
+use std::cell::Cell;
+
+thread_local! {
+    static RNG_STATE: Cell<u64> = Cell::new(0x9E37_79B9_7F4A_7C15);
+    static STEP_BUDGET: Cell<u64> = Cell::new(u64::MAX);
+    static STEPS_USED: Cell<u64> = Cell::new(0);
+}
+
+/// payload of the unwind raised by [`step`]
+#[derive(Debug, Clone)]
+pub struct StepBudgetExceeded {
+    pub site: &'static str,
+    pub budget: u64,
+}
+
+pub fn set_random_seed(seed: u64) {
+    RNG_STATE.with(|s| s.set(seed ^ 0x9E37_79B9_7F4A_7C15));
+}
+
+fn next_u64() -> u64 {
+    // splitmix64
+    RNG_STATE.with(|s| {
+        let mut z = s.get().wrapping_add(0x9E37_79B9_7F4A_7C15);
+        s.set(z);
+        z = (z ^ (z >> 30)).wrapping_mul(0xBF58_476D_1CE4_E5B9);
+        z = (z ^ (z >> 27)).wrapping_mul(0x94D0_49BB_1331_11EB);
+        z ^ (z >> 31)
+    })
+}
+
+pub fn random_bytes(len: u64) -> Vec<u8> {
+    let mut out = Vec::with_capacity(len as usize);
+    while (out.len() as u64) < len {
+        let v = next_u64().to_le_bytes();
+        for b in v {
+            if (out.len() as u64) < len {
+                out.push(b);
+            }
+        }
+    }
+    out
+}
+
+/// sets the number of `step` calls allowed from now on (u64::MAX = unlimited)
+pub fn set_step_budget(budget: u64) {
+    STEP_BUDGET.with(|b| b.set(budget));
+    STEPS_USED.with(|u| u.set(0));
+}
+
+pub fn steps_used() -> u64 {
+    STEPS_USED.with(|u| u.get())
+}
+
+pub fn step(site: &'static str) {
+    let used = STEPS_USED.with(|u| {
+        let v = u.get() + 1;
+        u.set(v);
+        v
+    });
+    let budget = STEP_BUDGET.with(|b| b.get());
+    if used > budget {
+        // disarm so that unwinding code that calls step() again does not double panic
+        STEP_BUDGET.with(|b| b.set(u64::MAX));
+        std::panic::panic_any(StepBudgetExceeded { site, budget });
+    }
+}
